@@ -151,6 +151,8 @@ TOP_ONLY = {'_size', '_dtype', '_device', '_entropy', '_levy_area_approximation'
 class RoundFn:
     def __pyvc_call__(self, engine, args, kwargs, cx, lineno):
         x = args[0]
+        if cx.state['world'].extra.get('$identity_round'):
+            return x
         return SV(ROUND(to_z3(x) if to_z3(x).sort() == R else z3.ToReal(to_z3(x))))
 
 
